@@ -313,6 +313,18 @@ def make_inst(ch, params):
         observe(script, 1, m, acc, info)
     else:
         observe(script, 0, m, acc, info)
+    if 'shared_memory' not in cls and ch.below(3) == 0:
+        # a child instance through the newChild hook: initialised like any instance (segments, globals, table, start function once),
+        # then released by the embedder; the first instance keeps its state
+        cls['child_instance_created_and_freed'] = 1
+        script.append(('child', 100, 0))
+        observe(script, 100, m, acc, info)
+        if acc['gset']:
+            gi, e, t = ch.pick(acc['gset'])
+            script.append(('call', 100, e, [gen.gen_args(ch, [t])[0]]))
+        observe(script, 0, m, acc, info)
+        script.append(('freechild', 100))
+        observe(script, 0, m, acc, info)
     interesting = [c for c in cls if c in ('imported_memory_with_segment', 'imported_table_with_segment', 'overlapping_data',
                                            'global_from_import', 'start_function', 'two_instances',
                                            'data_offset_from_global', 'elem_offset_from_global')]
